@@ -15,7 +15,7 @@ Requests
 * `script ((cls T)…) (op…)` → one snapshot per op: `((slot v…)…)` visible leaf values of every slot, or `(err Class)` (stops)
     ops: `(new slot cls v)` `(clone slot src)` `(alias slot src)` `(imatmul dst src)` `(ilshift dst src)`
          `(flip slot)` `(wleaf slot k x)` (`leaf k @= x`) `(wslice slot k lo hi x)` (`leaf k[lo:hi] = x`)
-         `(nbleaf slot k x)` (`leaf k <<= x`)
+         `(nbleaf slot k x)` (`leaf k <<= x`) `(flipleaves slot k n)` (`_flip()` of the sub-instance holding leaves k..k+n-1)
 -/
 namespace PV.Driver.BitStruct
 open PV PV.BitStruct
@@ -105,6 +105,13 @@ def step (classes : List (Nat × Ty)) (s : St) : Sexp → Option (Except Err St)
       let lo ← lo.int?; let hi ← hi.int?; let x ← x.int?
       some ((liftB (PV.Bits.setSlice (s.heap.cell c).cur (some lo) (some hi) none (.int x))).map fun b =>
         { s with heap := s.heap.upd c { (s.heap.cell c) with cur := b } })
+  | .list [.atom "flipleaves", d, k, n] => do
+      -- `_flip()` of a sub-instance (nested struct / list element): its leaves k .. k+n-1, in order
+      let (_, id) ← s.get (← d.nat?)
+      let k ← k.nat?; let n ← n.nat?
+      let cs := ((cells id).drop k).take n
+      if cs.length != n then none
+      some ((cs.foldlM (fun h c => leafFlip h c) s.heap).map fun h => { s with heap := h })
   | .list [.atom "nbleaf", d, k, x] => do
       let (_, id) ← s.get (← d.nat?)
       let c ← leafId id (← k.nat?)
